@@ -52,7 +52,9 @@ def set_ir(draw, nz, centre, families=None, allow_lift=True, max_pieces=3):
                 elif c[j] > 0:
                     lo[j] = 0.0
             pieces.append({'t': 'box', 'lo': lo, 'hi': hi,
-                           'style': draw(st.sampled_from(['bounds', 'rows', 'split']))})
+                           'style': draw(st.sampled_from(['bounds', 'rows', 'split'])),
+                           # redundant looser bound objects declared after (1) or before (2) the real ones: the tighter must win
+                           'dup': draw(st.sampled_from([0, 0, 0, 1, 2]))})
         elif f == 'linf':
             pieces.append({'t': 'linf', 'c': c, 'r': draw(st.sampled_from(HALF)),
                            'style': draw(st.sampled_from(['abs', 'inf']))})
@@ -122,7 +124,8 @@ def rsome_constraints(s, z, u=None):
         if t == 'box':
             lo, hi = np.array(p['lo']), np.array(p['hi'])
             if p['style'] == 'bounds':
-                out += [z >= lo, z <= hi]
+                loose = [z >= lo - 1.0, z <= hi + 0.5] if p.get('dup') else []
+                out += (loose if p.get('dup') == 2 else []) + [z >= lo, z <= hi] + (loose if p.get('dup') == 1 else [])
             elif p['style'] == 'rows':
                 out += [np.eye(nz) @ z <= hi, -np.eye(nz) @ z <= -lo]
             else:
